@@ -9,7 +9,7 @@
    run-length lists must expand to) and the screen cells [cells_of] (the row of Model/Canvas.v).
    In the wide mode one byte is one column, so bytes and cells line up one to one. *)
 From Coq Require Import ZArith List Bool Lia ZifyBool.
-From Urwid Require Import PyBase PyList Utf8 Width WidthFacts WideProofs WideExact.
+From Urwid Require Import PyBase PyList Utf8 Width WidthFacts WideProofs WideExact GenEq.
 From Urwid Require Import Canvas CanvasFacts CanvasDelta2 CanvasBytes CanvasBytesRle.
 Import ListNotations.
 Open Scope Z_scope.
@@ -212,7 +212,8 @@ Qed.
 Lemma fix_right_snoc r c : fix_right (r ++ [c]) = r ++ [match ck c with KL => space (ca c) | _ => c end].
 Proof.
   induction r as [|d r IH]; [cbn [app fix_right]; destruct (ck c); reflexivity|].
-  cbn [app fix_right]. destruct (r ++ [c]) eqn:E; [destruct r; discriminate|]. rewrite <- E, IH. reflexivity.
+  rewrite <- app_comm_cons. destruct (r ++ [c]) as [|c0 l0] eqn:E; [destruct r; discriminate|].
+  change (fix_right (d :: c0 :: l0)) with (d :: fix_right (c0 :: l0)). rewrite IH. reflexivity.
 Qed.
 
 Lemma dropz_1_cons {A} (x : A) r : dropz 1 (x :: r) = r.
@@ -256,7 +257,7 @@ Proof.
       replace (s + 1 - 1 - zlen (tbytes l1)) with 1 by lia. reflexivity.
     + apply Forall_app in Hok. destruct Hok as [_ Hok]. inversion Hok; subst.
       constructor; [unfold tch_ok, sp_tch, tchar; cbn; lia|assumption].
-    + reflexivity.
+    + change (midb (sp_tch a :: l2) 1) with (midb l2 0). apply midb_0.
     + intros q Hq.
       change (midb (sp_tch a :: l2) q) with (if q <=? 0 then false else if q <? 1 then true else midb l2 (q - 1)).
       destruct (q <=? 0) eqn:E0; [lia|]. destruct (q <? 1) eqn:E1; [lia|].
@@ -309,4 +310,596 @@ Proof.
       now rewrite app_nil_r.
     + intros; lia.
     + apply Forall_app in Hok. tauto.
+Qed.
+
+(* ------------------------------------------------------------------ util.trim_text_attr_cs on a double-byte row *)
+Lemma ttac_unfold wcw m text (attr cs : rle) sc ec sp ep pl pr :
+  calc_trim_text wcw m text 0 (zlen text) sc ec = Ok (sp, ep, pl, pr) ->
+  trim_text_attr_cs wcw m text attr cs sc ec =
+  Ok (repeatz 32 pl ++ py_slice text sp ep ++ repeatz 32 pr,
+      (let A := rle_subseg attr sp ep in
+       let A1 := if negb (pl =? 0) then rle_prepend_modify A (rle_get_at attr (sp - 1)) 1 else A in
+       if negb (pr =? 0) then rle_append_modify A1 (rle_get_at attr ep) 1 else A1),
+      (let C := rle_subseg cs sp ep in
+       let C1 := if negb (pl =? 0) then rle_prepend_modify C None 1 else C in
+       if negb (pr =? 0) then rle_append_modify C1 None 1 else C1)).
+Proof. intros E. unfold trim_text_attr_cs. rewrite E. destruct (negb (pl =? 0)), (negb (pr =? 0)); reflexivity. Qed.
+
+Lemma nnr_prepend (r : rle) a : nnr r -> nnr (rle_prepend_modify r a 1).
+Proof.
+  intros Hn. unfold rle_prepend_modify. destruct r as [|[al run] t]; [repeat constructor; cbn; lia|].
+  inversion Hn as [|p l Hp Ht]; subst. cbn [snd] in Hp.
+  destruct (oz_eqb a al).
+  - constructor; [cbn [snd]; lia|assumption].
+  - constructor; [cbn [snd]; lia|]. constructor; [cbn [snd]; lia|assumption].
+Qed.
+
+Lemma nnr_append (r : rle) a n : nnr r -> 0 <= n -> nnr (rle_append_modify r a n).
+Proof.
+  intros Hr Hn. unfold rle_append_modify, rle_append_modify_gen. destruct (n =? 0); [exact Hr|].
+  induction r as [|[la lr] t IH]; [repeat constructor; exact Hn|].
+  inversion Hr as [|p l Hp Ht]; subst. cbn [snd] in Hp. destruct t as [|y t'].
+  - cbn [rle_append_core]. destruct (oz_eqb la a); repeat constructor; cbn [snd]; lia.
+  - change (rle_append_core oz_eqb ((la, lr) :: y :: t') a n) with ((la, lr) :: rle_append_core oz_eqb (y :: t') a n).
+    constructor; [exact Hp|apply IH, Ht].
+Qed.
+
+Lemma rexp_pads (A : rle) g1 g2 pl pr : nnr A -> (pl = 0 \/ pl = 1) -> (pr = 0 \/ pr = 1) ->
+  let A1 := if negb (pl =? 0) then rle_prepend_modify A g1 1 else A in
+  let A2 := if negb (pr =? 0) then rle_append_modify A1 g2 1 else A1 in
+  rexp A2 = repeatz g1 pl ++ rexp A ++ repeatz g2 pr /\ nnr A2 /\ (posr A -> posr A2).
+Proof.
+  intros Hn [-> | ->] [-> | ->]; cbn zeta;
+    change (negb (0 =? 0)) with false; change (negb (1 =? 0)) with true; cbv iota.
+  - split; [now rewrite app_nil_r|]. tauto.
+  - split; [|split].
+    + now rewrite rexp_append by (try assumption; lia).
+    + apply nnr_append; [assumption|lia].
+    + intros. apply posr_append; [assumption|lia].
+  - split; [|split].
+    + rewrite rexp_prepend by assumption. now rewrite app_nil_r.
+    + now apply nnr_prepend.
+    + intros. now apply posr_prepend.
+  - split; [|split].
+    + rewrite rexp_append by (try apply nnr_prepend; try assumption; lia). now rewrite rexp_prepend by assumption.
+    + apply nnr_append; [now apply nnr_prepend|lia].
+    + intros. apply posr_append; [now apply posr_prepend|lia].
+Qed.
+
+Lemma map_repeatz {A B} (f : A -> B) x n : map f (repeatz x n) = repeatz (f x) n.
+Proof. unfold repeatz. induction (Z.to_nat n) as [|k IH]; [reflexivity|]. cbn [repeat map]. now rewrite IH. Qed.
+
+Lemma wdb_at_end text : within_double_byte text 0 (zlen text) <> Ok 2.
+Proof. unfold within_double_byte. rewrite (wdb_unfold 2). rewrite get_index_out. discriminate. Qed.
+
+(* the function assembled from the translated code is C11's trim_text_attr_cs (C11: Proofs/GenEq.v) *)
+Lemma trim_text_attr_cs_g_eq wcw md text (attr cs : rle) sc ec :
+  trim_text_attr_cs_g wcw md text attr cs sc ec = trim_text_attr_cs wcw md text attr cs sc ec.
+Proof.
+  unfold trim_text_attr_cs_g, trim_text_attr_cs. rewrite calc_trim_text_g_eq.
+  destruct (calc_trim_text wcw md text 0 (zlen text) sc ec) as [[[[sp ep] pl] pr]|e]; [|reflexivity].
+  rewrite !rle_subseg_gen_eq, !rle_get_at_gen_eq.
+  destruct (negb (pl =? 0)), (negb (pr =? 0)); reflexivity.
+Qed.
+
+Section Row.
+Variable wcw : Z -> Z.
+
+Theorem trim_row_refines l (attr cs : rle) s e :
+  Forall tch_ok l -> nnr attr -> nnr cs -> rexp attr = tattrs l -> rexp cs = tcss l ->
+  0 <= s < e -> e <= zlen (tbytes l) ->
+  exists l' a' c',
+    trim_text_attr_cs wcw MWide (tbytes l) attr cs s e = Ok (tbytes l', a', c') /\
+    rexp a' = tattrs l' /\ rexp c' = tcss l' /\ nnr a' /\ nnr c' /\
+    (posr attr -> posr a') /\ (posr cs -> posr c') /\
+    Forall tch_ok l' /\ zlen (tbytes l') = e - s /\
+    cells_of l' = trim_cells (cells_of l) s e.
+Proof.
+  intros Hok Na Nc Xa Xc Hse Hle.
+  destruct (calc_trim_text_wide wcw (chars l) s e (Forall_chars _ Hok) Hse Hle)
+    as (sp & ep & pl & pr & E & Hsum & Hsp & Hpl & Hpr & Fl & Fr).
+  fold (tbytes l) in E, Fl, Fr.
+  assert (PL : pl = if midb l s then 1 else 0).
+  { pose proof (wdb_midb l s Hok ltac:(lia)) as W. destruct (midb l s); [apply Fl; tauto|].
+    destruct Hpl as [H|H]; [exact H|]. apply Fl in H. apply W in H. discriminate. }
+  assert (PR : pr = if midb l e then 1 else 0).
+  { destruct (Z.eq_dec e (zlen (tbytes l))) as [-> | Ne].
+    - rewrite midb_end. destruct Hpr as [H|H]; [exact H|]. apply Fr in H. now apply wdb_at_end in H.
+    - pose proof (wdb_midb l e Hok ltac:(lia)) as W. destruct (midb l e); [apply Fr; tauto|].
+      destruct Hpr as [H|H]; [exact H|]. apply Fr in H. apply W in H. discriminate. }
+  destruct (left_cut l s Hok ltac:(lia)) as (m & g1 & Cm & Pm & G1 & Okm & Mpl & Mq). cbn zeta in *.
+  rewrite <- PL in *.
+  set (n := e - s).
+  assert (Hnpl : pl <= n) by (unfold n; lia).
+  assert (Mn : midb m n = midb l e) by (rewrite Mq by exact Hnpl; f_equal; unfold n; lia).
+  assert (Lm : zlen (tbytes m) = zlen (tbytes l) - s).
+  { rewrite <- zlen_pb, Pm, zlen_app, zlen_repeatz by lia. rewrite zlen_dropz by lia. rewrite zlen_pb. lia. }
+  destruct (right_cut m n Okm ltac:(unfold n; lia)) as (m' & g2 & Cm' & Pm' & G2 & Okm'). cbn zeta in *.
+  rewrite Mn, <- PR in *.
+  (* the slice is not negative *)
+  assert (Hmid : 0 <= n - pr - pl).
+  { destruct Hpr as [-> | ->]; [lia|]. destruct (Z.eq_dec n pl) as [En|]; [|lia].
+    rewrite En, Mpl in Mn. rewrite <- Mn in PR. discriminate. }
+  assert (Hep : ep = sp + (n - pr - pl)) by (unfold n; lia).
+  assert (Hspb : 0 <= sp <= ep) by lia.
+  assert (Hepl : ep <= zlen (tbytes l)) by (unfold n in *; lia).
+  (* the per-byte triples of the result *)
+  assert (PB : pb m' = repeatz (32, g1, None) pl ++ takez (ep - sp) (dropz sp (pb l)) ++ repeatz (32, g2, None) pr).
+  { rewrite Pm', Pm. rewrite takez_app_r by (rewrite zlen_repeatz; lia). rewrite zlen_repeatz by lia.
+    rewrite <- app_assoc. rewrite <- Hsp. do 2 f_equal. f_equal. lia. }
+  exists m'. rewrite (ttac_unfold _ _ _ _ _ _ _ _ _ _ _ E).
+  set (A := rle_subseg attr sp ep). set (C := rle_subseg cs sp ep).
+  assert (NA : nnr A) by (apply rle_subseg_nn; [assumption|lia]).
+  assert (NC : nnr C) by (apply rle_subseg_nn; [assumption|lia]).
+  assert (XA : rexp A = takez (ep - sp) (dropz sp (tattrs l))) by (unfold A; rewrite rexp_subseg, Xa by (assumption || lia); reflexivity).
+  assert (XC : rexp C = takez (ep - sp) (dropz sp (tcss l))) by (unfold C; rewrite rexp_subseg, Xc by (assumption || lia); reflexivity).
+  destruct (rexp_pads A (rle_get_at attr (sp - 1)) (rle_get_at attr ep) pl pr NA Hpl Hpr) as (RA & NA2 & PA2).
+  destruct (rexp_pads C None None pl pr NC Hpl Hpr) as (RC & NC2 & PC2).
+  cbn zeta in *.
+  (* the attributes of the two replacement spaces *)
+  assert (GA1 : repeatz (rle_get_at attr (sp - 1)) pl = repeatz g1 pl).
+  { destruct Hpl as [-> | Hp1]; [now rewrite !repeatz_0 by lia|]. f_equal.
+    apply rle_get_at_nth; [assumption|]. rewrite Xa. rewrite <- (G1 Hp1). f_equal. lia. }
+  assert (GA2 : repeatz (rle_get_at attr ep) pr = repeatz g2 pr).
+  { destruct Hpr as [-> | Hp1]; [now rewrite !repeatz_0 by lia|]. f_equal.
+    apply rle_get_at_nth; [assumption|]. rewrite Xa. rewrite <- (G2 Hp1).
+    unfold tattrs at 2. rewrite Pm, map_app, map_repeatz. cbn [fst snd].
+    rewrite nthz_app_r by (rewrite zlen_repeatz; lia). rewrite zlen_repeatz by lia.
+    rewrite <- dropz_map. fold (tattrs l). rewrite nthz_dropz by lia. f_equal. lia. }
+  eexists _, _. split; [|split; [|split; [|split; [|split; [|split; [|split; [|split; [|split]]]]]]]].
+  - f_equal. f_equal. f_equal.
+    rewrite (tbytes_pb m'), PB, !map_app, !map_repeatz. cbn [fst].
+    rewrite py_slice_in by lia. rewrite (tbytes_pb l). now rewrite dropz_map, takez_map.
+  - rewrite RA, XA, GA1, GA2. unfold tattrs at 2. rewrite PB, !map_app, !map_repeatz. cbn [fst snd].
+    unfold tattrs. now rewrite dropz_map, takez_map.
+  - rewrite RC, XC. unfold tcss at 2. rewrite PB, !map_app, !map_repeatz. cbn [snd].
+    unfold tcss. now rewrite dropz_map, takez_map.
+  - exact NA2.
+  - exact NC2.
+  - intros P. apply PA2. apply rle_subseg_pos; [assumption|lia].
+  - intros P. apply PC2. apply rle_subseg_pos; [assumption|lia].
+  - exact Okm'.
+  - rewrite <- zlen_pb, PB, !zlen_app, !zlen_repeatz by lia.
+    rewrite zlen_takez by lia. rewrite zlen_dropz by lia. rewrite zlen_pb. lia.
+  - rewrite Cm', Cm. rewrite takez_fix_left by (unfold n; lia). reflexivity.
+Qed.
+End Row.
+
+(* ------------------------------------------------------------------ the segments of a content row, read back *)
+Definition pairs (l : list tch) : list (oz * oz) := map (fun t => (snd (fst t), snd t)) (pb l).
+Definition tpair (x : tch) : oz * oz := (oz_of_z (tattr x), oz_of_z (tcs x)).
+
+Lemma pairs_combine l : combine (tattrs l) (tcss l) = pairs l.
+Proof. unfold tattrs, tcss, pairs. induction (pb l) as [|t r IH]; [reflexivity|]. cbn [map combine]. now rewrite IH. Qed.
+
+Lemma pairs_app a b : pairs (a ++ b) = pairs a ++ pairs b.
+Proof. unfold pairs. now rewrite pb_app, map_app. Qed.
+
+Lemma zlen_pairs l : zlen (pairs l) = zlen (tbytes l).
+Proof. unfold pairs. now rewrite zlen_map, zlen_pb. Qed.
+
+Lemma pairs_cons x l : pairs (x :: l) = repeatz (tpair x) (zlen (dbbytes (tchar x))) ++ pairs l.
+Proof.
+  change (x :: l) with ([x] ++ l). rewrite pairs_app. f_equal.
+  unfold pairs, pb. cbn [flat_map]. rewrite app_nil_r. unfold pb1. rewrite map_map. cbn [fst snd].
+  unfold tpair. destruct (tchar x); reflexivity.
+Qed.
+
+Lemma z_of_oz_of_z v : z_of_oz (oz_of_z v) = v.
+Proof. unfold oz_of_z. destruct (v =? 0) eqn:E; cbn [z_of_oz]; lia. Qed.
+
+Lemma Forall_pairs v l : Forall (fun p => p = v) (pairs l) -> Forall (fun x => tpair x = v) l.
+Proof.
+  induction l as [|x l IH]; intros H; [constructor|].
+  rewrite pairs_cons in H. apply Forall_app in H. destruct H as [H1 H2]. constructor; [|now apply IH].
+  pose proof (zlen_tchar x) as Hx. unfold repeatz in H1.
+  destruct (Z.to_nat (zlen (dbbytes (tchar x)))) eqn:E; [lia|]. cbn [repeat] in H1. now inversion H1.
+Qed.
+
+Lemma Forall_repeatz {A} (x : A) n : Forall (fun p => p = x) (repeatz x n).
+Proof. unfold repeatz. induction (Z.to_nat n); constructor; auto. Qed.
+
+(* decoding the bytes of whole characters that share one attribute and charset *)
+Lemma dec_bytes_chars m a c l :
+  Forall tch_ok l -> Forall (fun x => tpair x = (a, c)) l ->
+  dec_bytes (map_attr m (z_of_oz a)) (z_of_oz c) (tbytes l) = Some (map (cell_map_attr m) (cells_of l)).
+Proof.
+  induction l as [|x l IH]; intros Hok Hp; [reflexivity|].
+  inversion Hok as [|x' l' Hx Hl]; subst. inversion Hp as [|x' l' Px Pl]; subst.
+  specialize (IH Hl Pl). rewrite tbytes_cons. change (cells_of (x :: l)) with (cells1 x ++ cells_of l). rewrite map_app.
+  unfold tpair in Px. inversion Px as [[Ea Ec]].
+  assert (Ta : z_of_oz (oz_of_z (tattr x)) = tattr x) by apply z_of_oz_of_z.
+  assert (Tc : z_of_oz (oz_of_z (tcs x)) = tcs x) by apply z_of_oz_of_z.
+  rewrite Ea in Ta |- *. rewrite Ec in Tc |- *.
+  unfold tch_ok in Hx. unfold cells1. destruct (tchar x) as [b|b t]; cbn [dbchar_ok] in Hx; cbn [dbbytes app].
+  - cbn [dec_bytes]. destruct (b <? 128) eqn:E; [|lia]. rewrite IH. cbn [map cell_map_attr ck ca ccs cch app].
+    rewrite Ta, Tc. reflexivity.
+  - cbn [dec_bytes]. destruct (b <? 128) eqn:E; [lia|]. rewrite IH. cbn [map cell_map_attr ck ca ccs cch app].
+    rewrite Ta, Tc. reflexivity.
+Qed.
+
+Lemma app_inv_length {A} (a : list A) : forall b c d, length a = length c -> a ++ b = c ++ d -> a = c /\ b = d.
+Proof.
+  induction a as [|x a IH]; intros b c d Hl E; destruct c as [|y c]; try discriminate Hl.
+  - cbn in E. tauto.
+  - cbn [app] in E. inversion E; subst. cbn [length] in Hl. destruct (IH b c d ltac:(lia) H1). subst. tauto.
+Qed.
+
+(* the first run of a canonical run-length list over a row ends on a character boundary *)
+Lemma first_run_split L a c run (p' : list ((oz * oz) * Z)) :
+  posr (((a, c), run) :: p') -> canon (((a, c), run) :: p') ->
+  rexp (((a, c), run) :: p') = pairs L ->
+  exists L1 L2, L = L1 ++ L2 /\ zlen (tbytes L1) = run /\ Forall (fun x => tpair x = (a, c)) L1 /\
+                rexp p' = pairs L2.
+Proof.
+  intros Pp Cp X. inversion Pp as [|q l Hq Hp']; subst. cbn [snd] in Hq. cbn [rexp] in X.
+  assert (Hlen : run + zlen (rexp p') = zlen (tbytes L)).
+  { rewrite <- zlen_pairs, <- X, zlen_app, zlen_repeatz by lia. reflexivity. }
+  pose proof (zlen_nonneg (rexp p')) as Hnn.
+  pose proof (midb_split L run ltac:(lia)) as S.
+  destruct (midb L run) eqn:M.
+  - exfalso. destruct S as (l1 & b & t & a0 & s0 & l2 & E & Hl). subst L.
+    rewrite pairs_app, pairs_cons in X.
+    change (zlen (dbbytes (tchar (DDouble b t, a0, s0)))) with 2 in X.
+    change (repeatz (tpair (DDouble b t, a0, s0)) 2) with [tpair (DDouble b t, a0, s0); tpair (DDouble b t, a0, s0)] in X.
+    (* byte run-1 and byte run carry the same pair *)
+    assert (N1 : nthz (repeatz (a, c) run ++ rexp p') (run - 1) = Some (tpair (DDouble b t, a0, s0))).
+    { rewrite X. rewrite nthz_app_r by (rewrite zlen_pairs; lia). rewrite zlen_pairs.
+      replace (run - 1 - zlen (tbytes l1)) with 0 by lia. reflexivity. }
+    assert (N2 : nthz (repeatz (a, c) run ++ rexp p') run = Some (tpair (DDouble b t, a0, s0))).
+    { rewrite X. rewrite nthz_app_r by (rewrite zlen_pairs; lia). rewrite zlen_pairs.
+      replace (run - zlen (tbytes l1)) with 1 by lia. reflexivity. }
+    rewrite nthz_repeatz_app in N1, N2 by lia.
+    destruct (run - 1 <? run) eqn:E1; [|lia]. destruct (run <? run) eqn:E2; [lia|].
+    replace (run - run) with 0 in N2 by lia.
+    destruct p' as [|[[a' c'] run'] p'']; [cbn in N2; discriminate|].
+    inversion Hp' as [|q' l' Hq' _]; subst. cbn [snd] in Hq'.
+    cbn [rexp] in N2. rewrite nthz_repeatz_app in N2 by lia. destruct (0 <? run') eqn:E3; [|lia].
+    destruct Cp as [Cne _]. congruence.
+  - destruct S as (L1 & L2 & E & Hl). exists L1, L2. subst L. rewrite pairs_app in X.
+    assert (X1 : repeatz (a, c) run = pairs L1 /\ rexp p' = pairs L2).
+    { apply app_inv_length; [|exact X]. apply Nat2Z.inj. change (zlen (repeatz (a, c) run) = zlen (pairs L1)).
+      rewrite zlen_repeatz, zlen_pairs by lia. lia. }
+    destruct X1 as [X1 X2]. repeat split; try assumption.
+    apply Forall_pairs. rewrite <- X1. apply Forall_repeatz.
+Qed.
+
+Lemma tbytes_empty L : zlen (tbytes L) = 0 -> L = [].
+Proof.
+  destruct L as [|x L]; [reflexivity|]. rewrite tbytes_cons, zlen_app.
+  pose proof (zlen_tchar x). pose proof (zlen_nonneg (tbytes L)). lia.
+Qed.
+
+Lemma bsegs_dec m : forall (p : list ((oz * oz) * Z)) L pre,
+  Forall tch_ok L -> posr p -> canon p -> rexp p = pairs L ->
+  dec_row (bsegs (pre ++ tbytes L) (zlen pre) p m) = Some (map (cell_map_attr m) (cells_of L)).
+Proof.
+  induction p as [|[[a c] run] p' IH]; intros L pre Hok Pp Cp X.
+  - cbn [rexp] in X. assert (L = []) as ->; [|reflexivity].
+    apply tbytes_empty. rewrite <- zlen_pairs, <- X. reflexivity.
+  - destruct (first_run_split L a c run p' Pp Cp X) as (L1 & L2 & E & Hl & F1 & X2). subst L.
+    apply Forall_app in Hok. destruct Hok as [Ok1 Ok2].
+    inversion Pp as [|q l Hq Pp']; subst. cbn [snd] in Hq. destruct Cp as [_ Cp'].
+    cbn [bsegs dec_row]. rewrite tbytes_app.
+    assert (SL : py_slice (pre ++ tbytes L1 ++ tbytes L2) (zlen pre) (zlen pre + zlen (tbytes L1)) = tbytes L1).
+    { pose proof (zlen_nonneg pre). pose proof (zlen_nonneg (tbytes L1)). pose proof (zlen_nonneg (tbytes L2)).
+      rewrite py_slice_in by (rewrite ?zlen_app; lia).
+      apply takez_dropz_mid. lia. }
+    rewrite SL. rewrite (dec_bytes_chars m a c L1 Ok1 F1).
+    replace (zlen pre + zlen (tbytes L1)) with (zlen (pre ++ tbytes L1)) by (rewrite zlen_app; lia).
+    rewrite app_assoc. rewrite (IH L2 (pre ++ tbytes L1) Ok2 Pp' Cp' X2).
+    now rewrite cells_of_app, map_app.
+Qed.
+
+(* ------------------------------------------------------------------ one row of TextCanvas.content *)
+Definition brow_rel (x : list Z * rle * rle) (l : list tch) : Prop :=
+  fst (fst x) = tbytes l /\ rexp (snd (fst x)) = tattrs l /\ rexp (snd x) = tcss l /\
+  posr (snd (fst x)) /\ posr (snd x) /\ Forall tch_ok l.
+
+Section Content.
+Variable wcw : Z -> Z.
+
+Lemma bcontent_row_refines maxcol tl cols m x l :
+  brow_rel x l -> zlen (tbytes l) = maxcol -> 0 <= tl -> 0 < cols -> tl + cols <= maxcol ->
+  exists segs, bcontent_row wcw MWide maxcol tl cols m x = Ok segs /\
+    dec_row segs = Some (map (cell_map_attr m)
+                           (if negb (tl =? 0) || (cols <? maxcol) then trim_cells (cells_of l) tl (tl + cols)
+                            else cells_of l)).
+Proof.
+  intros R Hw Htl Hc Hsum. destruct x as [[t a] c]. unfold brow_rel in R. cbn [fst snd] in R.
+  destruct R as (Et & Xa & Xc & Pa & Pc & Hok). subst t. unfold bcontent_row. rewrite trim_text_attr_cs_g_eq.
+  destruct (negb (tl =? 0) || (cols <? maxcol)) eqn:Cond.
+  - destruct (trim_row_refines wcw l a c tl (tl + cols) Hok (posr_nnr _ Pa) (posr_nnr _ Pc) Xa Xc ltac:(lia) ltac:(lia))
+      as (l' & a' & c' & E & Xa' & Xc' & _ & _ & Pa' & Pc' & Ok' & _ & Cl').
+    rewrite E. destruct (rle_product_spec a' c' (Pa' Pa) (Pc' Pc)) as (p & Ep & Xp & Pp & Cp).
+    rewrite Ep. eexists. split; [reflexivity|].
+    rewrite Xa', Xc', pairs_combine in Xp.
+    pose proof (bsegs_dec m p l' [] Ok' Pp Cp Xp) as D. cbn [app] in D. change (zlen (@nil Z)) with 0 in D.
+    rewrite D, Cl'. reflexivity.
+  - destruct (rle_product_spec a c Pa Pc) as (p & Ep & Xp & Pp & Cp).
+    rewrite Ep. eexists. split; [reflexivity|].
+    rewrite Xa, Xc, pairs_combine in Xp.
+    pose proof (bsegs_dec m p l [] Hok Pp Cp Xp) as D. cbn [app] in D. change (zlen (@nil Z)) with 0 in D.
+    exact D.
+Qed.
+End Content.
+
+(* ------------------------------------------------------------------ TextCanvas.content *)
+Definition btext_of (R3 : list (list Z * rle * rle)) (maxcol : Z) : btext :=
+  BText (map (fun x => fst (fst x)) R3) (map (fun x => snd (fst x)) R3) (map snd R3) maxcol.
+
+Lemma zip3_maps {A B C} (R3 : list (A * B * C)) :
+  zip3 (map (fun x => fst (fst x)) R3) (map (fun x => snd (fst x)) R3) (map snd R3) = R3.
+Proof. induction R3 as [|[[a b] c] r IH]; [reflexivity|]. cbn [map zip3 fst snd]. now rewrite IH. Qed.
+
+Lemma Forall2_firstn {A B} (R : A -> B -> Prop) n : forall a b, Forall2 R a b -> Forall2 R (firstn n a) (firstn n b).
+Proof. induction n as [|n IH]; intros a b H; [constructor|]. destruct H; [constructor|]. cbn [firstn]. constructor; auto. Qed.
+Lemma Forall2_skipn {A B} (R : A -> B -> Prop) n : forall a b, Forall2 R a b -> Forall2 R (skipn n a) (skipn n b).
+Proof. induction n as [|n IH]; intros a b H; [exact H|]. destruct H; [constructor|]. cbn [skipn]. auto. Qed.
+Lemma Forall2_zlen {A B} (R : A -> B -> Prop) a b : Forall2 R a b -> zlen a = zlen b.
+Proof. intros H. unfold zlen. f_equal. induction H; [reflexivity|]. cbn [length]. lia. Qed.
+Lemma Forall_firstn {A} (P : A -> Prop) n : forall a, Forall P a -> Forall P (firstn n a).
+Proof. induction n as [|n IH]; intros a H; [constructor|]. destruct H; [constructor|]. cbn [firstn]. constructor; auto. Qed.
+Lemma Forall_skipn {A} (P : A -> Prop) n : forall a, Forall P a -> Forall P (skipn n a).
+Proof. induction n as [|n IH]; intros a H; [exact H|]. destruct H; [constructor|]. cbn [skipn]. auto. Qed.
+
+Section Content2.
+Variable wcw : Z -> Z.
+
+Lemma mapM_rows maxcol tl cols m : forall Rs Ls,
+  Forall2 brow_rel Rs Ls -> Forall (fun l => zlen (tbytes l) = maxcol) Ls ->
+  0 <= tl -> 0 < cols -> tl + cols <= maxcol ->
+  exists S, mapM (bcontent_row wcw MWide maxcol tl cols m) Rs = Ok S /\
+    map dec_row S =
+    map Some (map (fun r : row => map (cell_map_attr m)
+                     (if negb (tl =? 0) || (cols <? maxcol) then trim_cells r tl (tl + cols) else r))
+                  (map cells_of Ls)).
+Proof.
+  intros Rs Ls H. induction H as [|x l Rs Ls Hx H IH]; intros W H1 H2 H3.
+  - exists []. split; reflexivity.
+  - inversion W as [|l' Ls' Wl WL]; subst.
+    destruct (bcontent_row_refines wcw _ tl cols m x l Hx eq_refl H1 H2 H3) as (segs & E & D).
+    destruct (IH WL H1 H2 H3) as (S & ES & DS).
+    exists (segs :: S). cbn [mapM]. rewrite E, ES. split; [reflexivity|].
+    cbn [map]. rewrite D, DS. reflexivity.
+Qed.
+
+Theorem text_content_refines R3 ls maxcol tl tt cols rows m :
+  Forall2 brow_rel R3 ls -> Forall (fun l => zlen (tbytes l) = maxcol) ls ->
+  match text_content (map cells_of ls) maxcol tl tt cols rows m with
+  | Err e => btext_content wcw MWide (btext_of R3 maxcol) tl tt cols rows m = Err e
+  | Ok rws => exists S, btext_content wcw MWide (btext_of R3 maxcol) tl tt cols rows m = Ok S /\
+                        map dec_row S = map Some rws
+  end.
+Proof.
+  intros HR HW. unfold text_content, btext_content. cbn [bt_maxcol bt_text bt_attr bt_cs btext_of].
+  assert (LN : zlen (map (fun x : list Z * rle * rle => fst (fst x)) R3) = zlen (map cells_of ls)).
+  { rewrite !zlen_map. now apply Forall2_zlen with (R := brow_rel). }
+  rewrite LN. set (maxrow := zlen (map cells_of ls)).
+  set (cols' := if cols =? 0 then maxcol - tl else cols).
+  set (rows' := if rows =? 0 then maxrow - tt else rows).
+  destruct (negb ((0 <=? tl) && (tl <? maxcol) && (0 <? cols') && (tl + cols' <=? maxcol))) eqn:G1; [reflexivity|].
+  destruct (negb ((0 <=? tt) && (tt <? maxrow) && (0 <? rows') && (tt + rows' <=? maxrow))) eqn:G2; [reflexivity|].
+  assert (LR : zlen R3 = maxrow) by (unfold maxrow; rewrite zlen_map; now apply Forall2_zlen with (R := brow_rel)).
+  assert (LL : zlen ls = maxrow) by (unfold maxrow; now rewrite zlen_map).
+  destruct (negb (tt =? 0) || (rows' <? maxrow)) eqn:Sel.
+  - rewrite !py_slice_in by (rewrite ?zlen_map; lia).
+    rewrite !dropz_map, !takez_map.
+    replace (tt + rows' - tt) with rows' by lia.
+    rewrite zip3_maps.
+    destruct (mapM_rows maxcol tl cols' m (takez rows' (dropz tt R3)) (takez rows' (dropz tt ls)))
+      as (S & ES & DS); try lia.
+    + apply Forall2_firstn, Forall2_skipn, HR.
+    + apply Forall_firstn, Forall_skipn, HW.
+    + exists S. split; [exact ES|exact DS].
+  - rewrite zip3_maps.
+    destruct (mapM_rows maxcol tl cols' m R3 ls HR HW) as (S & ES & DS); try lia.
+    exists S. split; [exact ES|exact DS].
+Qed.
+End Content2.
+
+(* ------------------------------------------------------------------ TextCanvas.__init__ *)
+(* what the constructor is given for one row: the bytes of the characters, and run-length lists that may
+   stop short of the end of the text (the rest is attribute None / charset None) *)
+Definition binit_rel (x : list Z * rle * rle) (l : list tch) : Prop :=
+  fst (fst x) = tbytes l /\ posr (snd (fst x)) /\ posr (snd x) /\
+  (exists k, 0 <= k /\ rexp (snd (fst x)) ++ repeatz None k = tattrs l) /\
+  (exists k, 0 <= k /\ rexp (snd x) ++ repeatz None k = tcss l) /\
+  Forall tch_ok l.
+
+Definition pad_tch (maxcol : Z) (l : list tch) : list tch := l ++ repeatz (sp_tch 0) (maxcol - zlen (tbytes l)).
+
+Lemma pb_repeat_sp n : pb (repeatz (sp_tch 0) n) = repeatz (32, None, None) n.
+Proof. unfold repeatz. induction (Z.to_nat n) as [|k IH]; [reflexivity|]. cbn [repeat]. change (pb (sp_tch 0 :: repeat (sp_tch 0) k)) with ((32, None, None) :: pb (repeat (sp_tch 0) k)). now rewrite IH. Qed.
+
+Lemma cells_repeat_sp n : cells_of (repeatz (sp_tch 0) n) = repeatz (space 0) n.
+Proof. unfold repeatz. induction (Z.to_nat n) as [|k IH]; [reflexivity|]. cbn [repeat]. change (cells_of (sp_tch 0 :: repeat (sp_tch 0) k)) with (space 0 :: cells_of (repeat (sp_tch 0) k)). now rewrite IH. Qed.
+
+Lemma cells_pad maxcol l : cells_of (pad_tch maxcol l) = cells_of l ++ repeatz (space 0) (maxcol - zlen (cells_of l)).
+Proof. unfold pad_tch. now rewrite cells_of_app, cells_repeat_sp, zlen_cells_of. Qed.
+
+Lemma tbytes_pad maxcol l : tbytes (pad_tch maxcol l) = tbytes l ++ repeatz 32 (maxcol - zlen (tbytes l)).
+Proof. unfold pad_tch. rewrite tbytes_app. f_equal. rewrite tbytes_pb, pb_repeat_sp, map_repeatz. reflexivity. Qed.
+
+Lemma Forall_repeatz_P {A} (P : A -> Prop) x n : P x -> Forall P (repeatz x n).
+Proof. intros. unfold repeatz. induction (Z.to_nat n); constructor; auto. Qed.
+
+Lemma init_row_refines maxcol x l :
+  binit_rel x l -> zlen (tbytes l) <= maxcol ->
+  exists y, init_row maxcol (zlen (tbytes l)) (fst (fst x)) (Some (snd (fst x))) (Some (snd x)) = Ok y /\
+            brow_rel y (pad_tch maxcol l) /\ zlen (tbytes (pad_tch maxcol l)) = maxcol.
+Proof.
+  intros R Hw. destruct x as [[t a] c]. unfold binit_rel in R. cbn [fst snd] in *.
+  destruct R as (Et & Pa & Pc & (ka & Hka & Xa) & (kc & Hkc & Xc) & Hok). subst t.
+  set (w := zlen (tbytes l)) in *. pose proof (zlen_nonneg (tbytes l)) as Hw0. fold w in Hw0.
+  unfold init_row. rewrite !rle_len_gen_eq. destruct (maxcol <? w) eqn:E1; [lia|].
+  assert (T' : (if w <? maxcol then tbytes l ++ repeatz 32 (maxcol - w) else tbytes l) = tbytes (pad_tch maxcol l)).
+  { rewrite tbytes_pad. fold w. destruct (w <? maxcol) eqn:E2; [reflexivity|]. rewrite repeatz_0 by lia. now rewrite app_nil_r. }
+  rewrite T'.
+  assert (ZT : zlen (tbytes (pad_tch maxcol l)) = maxcol).
+  { rewrite tbytes_pad, zlen_app, zlen_repeatz by (fold w; lia). fold w. lia. }
+  rewrite ZT.
+  assert (La : rle_len a = w - ka).
+  { rewrite <- zlen_rexp by (apply posr_nnr, Pa). pose proof (f_equal zlen Xa) as H.
+    rewrite zlen_app, zlen_repeatz, zlen_tattrs in H by lia. fold w in H. lia. }
+  assert (Lc : rle_len c = w - kc).
+  { rewrite <- zlen_rexp by (apply posr_nnr, Pc). pose proof (f_equal zlen Xc) as H.
+    rewrite zlen_app, zlen_repeatz, zlen_tcss in H by lia. fold w in H. lia. }
+  destruct (maxcol - rle_len a <? 0) eqn:E3; [lia|]. destruct (maxcol - rle_len c <? 0) eqn:E4; [lia|].
+  eexists. split; [reflexivity|]. split; [|reflexivity].
+  unfold brow_rel. cbn [fst snd].
+  assert (XA : forall (r : rle) k kk, posr r -> 0 <= kk -> rle_len r = w - kk -> k = maxcol - rle_len r ->
+               rexp (if negb (k =? 0) then rle_append_modify r None k else r) = rexp r ++ repeatz None kk ++ repeatz None (maxcol - w)
+               /\ posr (if negb (k =? 0) then rle_append_modify r None k else r)).
+  { intros r k kk Pr Hkk Lr Ek. destruct (negb (k =? 0)) eqn:E5.
+    - split; [|apply posr_append; [assumption|lia]].
+      rewrite rexp_append by (try apply posr_nnr; try assumption; lia). f_equal.
+      rewrite <- repeatz_add by lia. f_equal. lia.
+    - split; [|assumption]. rewrite !repeatz_0 by lia. now rewrite !app_nil_r. }
+  destruct (XA a (maxcol - rle_len a) ka Pa Hka La eq_refl) as [RA PA].
+  destruct (XA c (maxcol - rle_len c) kc Pc Hkc Lc eq_refl) as [RC PC].
+  split; [reflexivity|]. split; [|split; [|split; [exact PA|split; [exact PC|]]]].
+  - etransitivity; [exact RA|]. unfold pad_tch. rewrite tattrs_app, <- Xa, <- app_assoc. do 2 f_equal.
+    unfold tattrs. rewrite pb_repeat_sp, map_repeatz. reflexivity.
+  - etransitivity; [exact RC|]. unfold pad_tch. rewrite tcss_app, <- Xc, <- app_assoc. do 2 f_equal.
+    unfold tcss. rewrite pb_repeat_sp, map_repeatz. reflexivity.
+  - unfold pad_tch. apply Forall_app. split; [assumption|]. apply Forall_repeatz_P. unfold tch_ok, sp_tch, tchar. cbn. lia.
+Qed.
+
+Section Init.
+Variable wcw : Z -> Z.
+
+Lemma widths_wide (texts : list (list Z)) :
+  mapM (fun t => calc_width_g wcw MWide t 0 (zlen t)) texts = Ok (map (fun t => zlen t) texts).
+Proof.
+  induction texts as [|t r IH]; [reflexivity|]. cbn [mapM map]. rewrite calc_width_g_eq.
+  rewrite (calc_width_bytes_count wcw MWide t 0 (zlen t)) by (try (now left); apply zlen_nonneg).
+  rewrite IH. f_equal. f_equal. lia.
+Qed.
+
+Lemma init_loop_refines maxcol : forall I3 ls, Forall2 binit_rel I3 ls ->
+  if existsb (fun w => maxcol <? w) (map (fun r : row => zlen r) (map cells_of ls))
+  then init_loop maxcol (map (fun x => fst (fst x)) I3) (map (fun t => zlen t) (map (fun x => fst (fst x)) I3))
+                 (map (fun x => snd (fst x)) I3) (map snd I3) = Err CanvasError
+  else exists R3, init_loop maxcol (map (fun x => fst (fst x)) I3) (map (fun t => zlen t) (map (fun x => fst (fst x)) I3))
+                            (map (fun x => snd (fst x)) I3) (map snd I3) = Ok R3 /\
+                  Forall2 brow_rel R3 (map (pad_tch maxcol) ls) /\
+                  Forall (fun l => zlen (tbytes l) = maxcol) (map (pad_tch maxcol) ls).
+Proof.
+  intros I3 ls H. induction H as [|x l I3 ls Hx H IH].
+  - cbn. exists []. repeat split; constructor.
+  - cbn [map existsb init_loop hd_error List.tl].
+    assert (Et : fst (fst x) = tbytes l) by (destruct Hx; assumption).
+    rewrite Et. rewrite zlen_cells_of.
+    destruct (maxcol <? zlen (tbytes l)) eqn:E.
+    + cbn [orb]. unfold init_row. rewrite E. reflexivity.
+    + cbn [orb]. destruct (init_row_refines maxcol x l Hx ltac:(lia)) as (y & Ey & Ry & Wy).
+      rewrite Et in Ey. rewrite Ey.
+      destruct (existsb (fun w : Z => maxcol <? w) (map (fun r : row => zlen r) (map cells_of ls))).
+      * rewrite IH. reflexivity.
+      * destruct IH as (R3 & E3 & F2 & FW). rewrite E3. exists (y :: R3).
+        split; [reflexivity|]. split; constructor; assumption.
+Qed.
+
+(* TextCanvas(text, attr, cs, maxcol=...) in a double-byte encoding IS make_text on the cells *)
+Theorem btext_init_refines I3 ls (mc : oz) :
+  Forall2 binit_rel I3 ls ->
+  match make_text mc (map cells_of ls) with
+  | Err e => btext_init wcw MWide (map (fun x => fst (fst x)) I3) (map (fun x => snd (fst x)) I3) (map snd I3) mc = Err e
+  | Ok k => exists R3 ls' maxcol,
+      btext_init wcw MWide (map (fun x => fst (fst x)) I3) (map (fun x => snd (fst x)) I3) (map snd I3) mc
+        = Ok (btext_of R3 maxcol) /\
+      k = LText (map cells_of ls') maxcol /\ Forall2 brow_rel R3 ls' /\
+      Forall (fun l => zlen (tbytes l) = maxcol) ls'
+  end.
+Proof.
+  intros H. unfold make_text, btext_init. rewrite widths_wide.
+  assert (EW : map (fun t : list Z => zlen t) (map (fun x : list Z * rle * rle => fst (fst x)) I3)
+               = map (fun r : row => zlen r) (map cells_of ls)).
+  { clear mc. induction H as [|x l I3 ls Hx H IH]; [reflexivity|]. cbn [map]. rewrite IH. f_equal.
+    destruct Hx as [Et _]. rewrite Et. now rewrite zlen_cells_of. }
+  set (maxcol := match mc with Some m => m | None => fold_right Z.max 0 (map (fun r : row => zlen r) (map cells_of ls)) end).
+  assert (EM : match mc with Some m => m | None => fold_right Z.max 0 (map (fun t : list Z => zlen t) (map (fun x : list Z * rle * rle => fst (fst x)) I3)) end = maxcol).
+  { unfold maxcol. now rewrite EW. }
+  rewrite EM. pose proof (init_loop_refines maxcol I3 ls H) as L.
+  destruct (existsb (fun w : Z => maxcol <? w) (map (fun r : row => zlen r) (map cells_of ls))).
+  - rewrite L. reflexivity.
+  - destruct L as (R3 & E3 & F2 & FW). rewrite E3.
+    exists R3, (map (pad_tch maxcol) ls), maxcol. split; [reflexivity|]. split; [|tauto].
+    f_equal. rewrite !map_map. apply map_ext. intros l. now rewrite cells_pad.
+Qed.
+End Init.
+
+(* ------------------------------------------------------------------ constructor + content, end to end *)
+Theorem byte_text_canvas_is_cell_text_canvas wcw I3 ls (mc : oz) tl tt cols rows m :
+  Forall2 binit_rel I3 ls ->
+  match make_text mc (map cells_of ls) with
+  | Err e => btext_init wcw MWide (map (fun x => fst (fst x)) I3) (map (fun x => snd (fst x)) I3) (map snd I3) mc = Err e
+  | Ok k =>
+      exists b, btext_init wcw MWide (map (fun x => fst (fst x)) I3) (map (fun x => snd (fst x)) I3) (map snd I3) mc = Ok b /\
+      match canvas_content (Canvas 1 k) tl tt cols rows m with
+      | Err e => btext_content wcw MWide b tl tt cols rows m = Err e
+      | Ok rws => exists S, btext_content wcw MWide b tl tt cols rows m = Ok S /\ map dec_row S = map Some rws
+      end
+  end.
+Proof.
+  intros H. pose proof (btext_init_refines wcw I3 ls mc H) as I.
+  destruct (make_text mc (map cells_of ls)) as [k|e]; [|exact I].
+  destruct I as (R3 & ls' & maxcol & EI & -> & F2 & FW). exists (btext_of R3 maxcol). split; [exact EI|].
+  unfold canvas_content. cbn [cknd]. apply text_content_refines; assumption.
+Qed.
+
+(* ------------------------------------------------------------------ boolean form of the hypotheses *)
+Definition dbchar_okb (c : dbchar) : bool :=
+  match c with
+  | DSingle b => (0 <=? b) && (b <? 128)
+  | DDouble l t => (129 <=? l) && (l <=? 255) && (((64 <=? t) && (t <=? 126)) || ((128 <=? t) && (t <=? 255)))
+  end.
+Definition tch_okb (x : tch) : bool := dbchar_okb (tchar x).
+
+Fixpoint list_eqb {A} (eqb : A -> A -> bool) (a b : list A) : bool :=
+  match a, b with
+  | [], [] => true
+  | x :: a', y :: b' => eqb x y && list_eqb eqb a' b'
+  | _, _ => false
+  end.
+
+Lemma list_eqb_true {A} (eqb : A -> A -> bool) : (forall x y, eqb x y = true -> x = y) ->
+  forall a b, list_eqb eqb a b = true -> a = b.
+Proof.
+  intros H a. induction a as [|x a IH]; intros [|y b] E; try discriminate; [reflexivity|].
+  cbn [list_eqb] in E. apply andb_true_iff in E. destruct E as [E1 E2]. f_equal; [now apply H|now apply IH].
+Qed.
+
+Definition posrb {A} (r : list (A * Z)) : bool := forallb (fun p => 0 <? snd p) r.
+
+Lemma posrb_true {A} (r : list (A * Z)) : posrb r = true -> posr r.
+Proof. unfold posrb, posr. rewrite forallb_forall, Forall_forall. intros H x Hx. specialize (H x Hx). lia. Qed.
+
+(* a row handed to the constructor (text, attribute runs, charset runs) against its tagged characters *)
+Definition binit_okb (x : list Z * rle * rle) (l : list tch) : bool :=
+  let '(t, a, c) := x in
+  list_eqb Z.eqb t (tbytes l) && posrb a && posrb c &&
+  (rle_len a <=? zlen t) && list_eqb oz_eqb (rexp a ++ repeatz None (zlen t - rle_len a)) (tattrs l) &&
+  (rle_len c <=? zlen t) && list_eqb oz_eqb (rexp c ++ repeatz None (zlen t - rle_len c)) (tcss l) &&
+  forallb tch_okb l.
+
+Lemma binit_okb_rel x l : binit_okb x l = true -> binit_rel x l.
+Proof.
+  destruct x as [[t a] c]. unfold binit_okb, binit_rel. cbn [fst snd]. intros H.
+  repeat (apply andb_true_iff in H; destruct H as [H ?]).
+  split; [apply (list_eqb_true Z.eqb); [intros; lia|assumption]|].
+  split; [now apply posrb_true|]. split; [now apply posrb_true|].
+  split; [exists (zlen t - rle_len a); split; [lia|apply (list_eqb_true oz_eqb); [exact oz_eqb_true|assumption]]|].
+  split; [exists (zlen t - rle_len c); split; [lia|apply (list_eqb_true oz_eqb); [exact oz_eqb_true|assumption]]|].
+  rewrite forallb_forall in H0. apply Forall_forall. intros y Hy. specialize (H0 y Hy).
+  unfold tch_okb, tch_ok in *. destruct (tchar y); cbn [dbchar_okb dbchar_ok] in *; lia.
+Qed.
+
+Lemma binit_okb_all (ils : list ((list Z * rle * rle) * list tch)) :
+  forallb (fun p => binit_okb (fst p) (snd p)) ils = true -> Forall2 binit_rel (map fst ils) (map snd ils).
+Proof.
+  induction ils as [|[x l] r IH]; intros H; [constructor|].
+  cbn [forallb fst snd] in H. apply andb_true_iff in H. destruct H as [H1 H2].
+  cbn [map fst snd]. constructor; [now apply binit_okb_rel|now apply IH].
 Qed.
